@@ -76,11 +76,26 @@ def t_dv():
     a = [N('A0'), N('A1')]
     d_perm = DV('Dp', options=[10, 20, 30])
     d_cond = DV('Dc', options=['u', 'v'])
-    c_cond = DV('Cc', bounds=(0., 2.))
+    c_cond = DV('Cc', bounds=(0., 1.))
     c_perm = DV('Cp', bounds=(-1., 1.))
     c1 = g.add_selection_choice('C1', r, a)
     g.add_edges([(r, d_perm), (r, c_perm), (a[1], d_cond), (a[1], c_cond)])
     return g.set_start_nodes({r}), dict(sel=[c1], dv=[d_perm, d_cond, c_cond, c_perm])
+
+
+def t_dv_single():
+    """design variables with a single option (permanent and conditional) next to ordinary ones"""
+    B, N, CN, G, DV, *_ = _imp()
+    g = B()
+    r = N('R')
+    a = [N('A0'), N('A1')]
+    d_one = DV('D1', options=['only'])
+    d_one_c = DV('D1c', options=['only'])
+    d_two = DV('D2', options=[1, 2])
+    c = DV('Cx', bounds=(-3., -1.))
+    c1 = g.add_selection_choice('C1', r, a)
+    g.add_edges([(r, d_one), (a[0], d_one_c), (a[1], d_two), (a[0], c)])
+    return g.set_start_nodes({r}), dict(sel=[c1], dv=[d_one, d_one_c, d_two, c])
 
 
 def t_dv_linked():
@@ -182,6 +197,37 @@ def t_conn_group():
     return g.set_start_nodes({r}), dict(sel=[c1], conn=[cc], src=[grp], tgt=t, members={grp: m})
 
 
+def t_conn_group_open():
+    """grouping connector over a permanent open-ended member and an option-tied open-ended member (both min 1)"""
+    B, N, CN, G, *_ = _imp()
+    g = B()
+    r = N('R')
+    a = [N('A0'), N('A1')]
+    m = [CN('M0', deg_spec='+', repeated_allowed=True), CN('M1', deg_spec='+', repeated_allowed=True)]
+    grp = G('GRP')
+    t = [CN('T0', deg_list=[1, 2, 3], repeated_allowed=True)]
+    c1 = g.add_selection_choice('C1', r, a)
+    g.add_edges([(r, m[0]), (a[1], m[1]), (r, t[0])])
+    cc = g.add_connection_choice('K', [(grp, m)], t)
+    return g.set_start_nodes({r}), dict(sel=[c1], conn=[cc], src=[grp], tgt=t, members={grp: m})
+
+
+def t_conn_group_open2():
+    """as above with two targets that accept exactly one connection: without the second member the scenario needs the
+    group to accept a single... two connections"""
+    B, N, CN, G, *_ = _imp()
+    g = B()
+    r = N('R')
+    a = [N('A0'), N('A1')]
+    m = [CN('M0', deg_spec='+'), CN('M1', deg_spec='2..*')]
+    grp = G('GRP')
+    t = [CN('T0', deg_spec='?'), CN('T1', deg_spec='?'), CN('T2', deg_spec='?')]
+    c1 = g.add_selection_choice('C1', r, a)
+    g.add_edges([(r, m[0]), (a[1], m[1]), (r, t[0]), (r, t[1]), (r, t[2])])
+    cc = g.add_connection_choice('K', [(grp, m)], t)
+    return g.set_start_nodes({r}), dict(sel=[c1], conn=[cc], src=[grp], tgt=t, members={grp: m})
+
+
 def t_conn_group_finite():
     B, N, CN, G, *_ = _imp()
     g = B()
@@ -243,10 +289,10 @@ def t_conn_dv():
 
 TEMPLATES = {
     'two_indep': t_two_indep, 'nested': t_nested, 'nested3': t_nested3, 'incompat': t_incompat, 'forced': t_forced,
-    'dv': t_dv, 'dv_linked': t_dv_linked, 'sel_linked': t_sel_linked,
+    'dv': t_dv, 'dv_single': t_dv_single, 'dv_linked': t_dv_linked, 'sel_linked': t_sel_linked,
     'conn_simple': t_conn_simple, 'conn_cond': t_conn_cond, 'conn_opt_src': t_conn_opt_src,
     'conn_infeasible_scenario': t_conn_infeasible_scenario, 'conn_group': t_conn_group,
-    'conn_group_finite': t_conn_group_finite, 'conn_excl': t_conn_excl, 'conn_two': t_conn_two, 'conn_dv': t_conn_dv,
+    'conn_group_finite': t_conn_group_finite, 'conn_group_open': t_conn_group_open, 'conn_group_open2': t_conn_group_open2, 'conn_excl': t_conn_excl, 'conn_two': t_conn_two, 'conn_dv': t_conn_dv,
 }
 CONN_TEMPLATES = [k for k in TEMPLATES if k.startswith('conn_')]
 NO_CONN_TEMPLATES = [k for k in TEMPLATES if not k.startswith('conn_')]
